@@ -1,5 +1,6 @@
 """C12 - Exceptions unwind precisely and leave the machine consistent."""
 import json
+import os
 from lib import common, terms
 from lib.common import Report, run_jobs, generate, tlc_ok
 from lib.prolog_replay import Prog, features, unrename_term
@@ -35,6 +36,17 @@ log(T) :- assertz(logged(T)).
 t(A) :- ( A = 1 ; A = 2 ; A = 3 ).
 """
 RENAME = [("p", 3)]
+
+
+def cap(n):
+    """worker count, optionally capped by VERIF_MAX_WORKERS (shared machines)"""
+    try:
+        m = int(os.environ.get("VERIF_MAX_WORKERS", "0"))
+    except ValueError:
+        m = 0
+    return min(n, m) if m > 0 else n
+
+
 MAXANS = 20
 STEPS_PER = 4      # consult, reset log, query, read log
 TMO_MS = 4000
@@ -135,9 +147,10 @@ def check_one(pr, rs, maxans=MAXANS):
     return compare_log(pr, logres, pr.vec["out"])
 
 
-def run_batches(vecs, helpers, mkprog, batch=100, workers=8):
+def run_batches(vecs, helpers, mkprog, batch=100, workers=None):
     """replay vectors in batches sharing one Machine; programs after a panic/timeout (Machine rebuilt) and programs of a
     crashed batch are re-run alone. Yields (prog, description-or-None, crashed?)"""
+    workers = workers or cap(8)
     jobs, progs = [], {}
     for bi in range(0, len(vecs), batch):
         steps = [{"consult": helpers}]
@@ -214,11 +227,11 @@ def run(tier):
                 "cut, disjunction, if-then-else, negation, findall, once, setup_call_cleanup. distinct = family x "
                 "(goal kind, context/continuation, outcome status); random bodies: set of constructs x status"
                 % ("5 contexts, all 10 for 13 of the 22 goals" if quick else "22 goals x 8 catchers x 6 recoveries x 10 contexts"))
-    res, vecs = generate("MC_C12", "MC_C12_exh_%s.cfg" % tier, workers=8 if quick else 14, timeout=3400)
+    res, vecs = generate("MC_C12", "MC_C12_exh_%s.cfg" % tier, workers=cap(8 if quick else 14), timeout=3400)
     rep.add_tlc(res)
     nexh = len(vecs)
-    sims = common.simulate_parallel("MC_C12", "MC_C12_sim_%s.cfg" % tier, procs=4 if quick else 12,
-                                    num=250 if quick else 5000, depth=820, timeout=3400)
+    sims = common.simulate_parallel("MC_C12", "MC_C12_sim_%s.cfg" % tier, procs=cap(4 if quick else 12),
+                                    num=250 if quick else 3000, depth=820, timeout=3400)
     seen = set(json.dumps(v["prog"], sort_keys=True) for v in vecs)
     for sim in sims:
         tlc_ok(sim, "C12 simulation")
